@@ -333,8 +333,9 @@ fn coerce(ty: &Ty, v: &Val) -> Option<Val> {
       Some(true) => return Some(Val::List(vec![v.clone()])),
       Some(false) => {}
     }
-  } else if let Val::List(items) = v {
-    // from singleton list
+  }
+  if let Val::List(items) = v {
+    // from singleton list (also when the declared type is a collection itself: [[1, 2]] against a collection of numbers)
     if items.len() == 1 {
       match conforms(ty, &items[0]) {
         None => return None,
